@@ -5,14 +5,18 @@ from oracle_util import *  # noqa
 from protocol import from_real, KEY_IDX
 
 ID = "C09"
-LEAN_MODULE = None
+LEAN_MODULE = "SCoda.Props.C09"
+LEVEL = "proof"
 CLAUSES = [
-    ("every track gets the same number of bars", None),
-    ("bar k lasts the length of the signature in force at its start and carries that signature and key", None),
-    ("bars cover the longest track with less than one bar to spare", None),
-    ("re-quantisation off: a track's bars reproduce its sounding set exactly", None),
-    ("re-quantisation on: a subset of it (only boundary-cut fragments may shrink)", None),
-    ("the input sequences are left unchanged", None),
+    ("every track gets the same number of bars (one list per input track, all of one positive length); the loop terminates for positive bar lengths",
+     ["SCoda.C09.equal_counts", "SCoda.C09.terminates"]),
+    ("bar k lasts exactly the length of the signature it carries, starts with that signature and holds no other; it carries the same signature and key on "
+     "every track: the signature and the key in force at its start (boundary-aligned changes, 4/4 and no key before any)",
+     ["SCoda.C09.bars_exact", "SCoda.C09.same_column", "SCoda.C09.bar_signature"]),
+    ("bars cover the longest track with less than one bar to spare", ["SCoda.C09.coverage"]),
+    ("re-quantisation off: a track's bars reproduce its sounding set exactly", ["SCoda.C09.sound_exact"]),
+    ("re-quantisation on: a subset of it", ["SCoda.C09.sound_subset"]),
+    ("the input sequences are left unchanged: immediate in the functional model; aliasing is C16 (identity harness)", ["SCoda.C09.equal_counts"]),
 ]
 RULE = ("multi-track pieces (1-3 tracks, 1-5 bars, 9 signatures with boundary-aligned changes, key changes on bar lines, "
         "tracks of unequal length, empty tracks, notes crossing bar lines) x re-quantisation on/off; "
